@@ -211,6 +211,49 @@ def draw_sites(world, fi, inside_with=False, depth=0, seen=None):
     return out
 
 
+def drawing_functions(world, fi, depth=0, seen=None) -> list:
+    """fi and the pyxel/models functions reachable from it (by name) that draw from the global generator, directly or through a callee"""
+    seen = seen if seen is not None else {}
+    if fi.qualname in seen:
+        return seen[fi.qualname]
+    seen[fi.qualname] = []
+    out, draws = [], False
+    for n in ast.walk(fi.node):
+        if isinstance(n, ast.Call):
+            if is_global_draw(n):
+                draws = True
+            elif isinstance(n.func, ast.Name) and depth < 6:
+                r = world.resolve(fi.module, n.func.id)
+                if r and r[0] == "function" and r[1].module.relpath.startswith("pyxel/models/"):
+                    sub = drawing_functions(world, r[1], depth + 1, seen)
+                    if sub:
+                        draws = True
+                        out.extend(x for x in sub if x not in out)
+    if draws:
+        out.insert(0, fi)
+    seen[fi.qualname] = out
+    return out
+
+
+def memo_decorators(fi) -> list:
+    return [ast.unparse(d) for d in fi.node.decorator_list if any(w in ast.unparse(d).lower() for w in ("cache", "memo"))]
+
+
+MEMO_REPLAYS = {"fixed_pattern_noise": lambda w: {"code": """
+import numpy as np, verif_probes as VP
+from pyxel.models.charge_collection import fixed_pattern_noise
+def run(seed, noise_before):
+    np.random.seed(noise_before); np.random.random(noise_before)          # arbitrary earlier use of the process-wide generator
+    det = VP.detector(rows=4, cols=5, quantum_efficiency=0.8)
+    det.pixel.array = np.full((4, 5), 100.0)
+    fixed_pattern_noise(det, fixed_pattern_noise_factor=0.05, seed=seed)
+    return det.pixel.array.copy()
+a1, b, a2 = run(1, 3), run(2, 4), run(1, 5)
+VIOLATED = not np.array_equal(a1, a2) or np.array_equal(a1, b)
+DETAIL = f'seed 1 twice gives the same map: {np.array_equal(a1, a2)}; seed 2 after seed 1 gives the map of seed 1 (what was drawn depends on the earlier call): {np.array_equal(a1, b)}'
+""", "expect": "the draws of a seeded model are a function of its seed alone, whatever ran before"}}
+
+
 @unit("C04", "model.frame")
 def model_frame(u: Unit):
     n = 0
@@ -237,6 +280,15 @@ def model_frame(u: Unit):
                      replay=lambda w, mod=mi.name, name=fn.name: {"code": f"""
 VIOLATED, DETAIL = False, 'structural obligation: a draw outside the seed context in {mod}.{name} (see witness)'
 """, "expect": "draws inside the seed context"})
+            # what a seeded model draws must be a function of (seed, arguments): a memoised drawing function returns the draws of
+            # an EARLIER call (made under another seed) on a cache hit, and draws nothing
+            memo = [(f.qualname, d) for f in drawing_functions(u.world, fn) for d in memo_decorators(f)]
+            glob = [f.qualname for f in drawing_functions(u.world, fn) if any(isinstance(x, (ast.Global, ast.Nonlocal)) for x in ast.walk(f.node))]
+            u.static(f"model.draws_not_memoised[{fn.name}]", not memo and not glob, fn.qualname,
+                     f"drawing functions on the chain: {[f.name for f in drawing_functions(u.world, fn)]}; memoised: {memo}; writing global names: {glob}",
+                     witness={"function": fn.name, "memoised": [m[0] for m in memo]}, replay=MEMO_REPLAYS.get(fn.name, lambda w, name=fn.name: {"code": f"""
+VIOLATED, DETAIL = False, 'structural obligation: a function that draws random numbers for {name} is memoised (see witness); no prepared scenario for this model'
+""", "expect": "drawing functions are not memoised"}))
     u.static("model.frame.cover", n >= 10, "", f"{n} model functions with a seed parameter found by scanning pyxel/models")
 
 
